@@ -6,6 +6,7 @@ import Gts.Lemmas.Guest
 import Gts.Lemmas.Table
 import Gts.Lemmas.Record
 import Gts.Lemmas.MarksOps
+import Gts.Lemmas.MarkGuardOps
 namespace Gts.C02
 open Gts Loc
 
@@ -171,6 +172,13 @@ theorem shift_marks_partial (l : Loc) (i n : Int) (hw : wf l = true) (hn : 0 ≤
     (hg : shiftMarkAbs l i n = false) :
     outerMarks (shift l i n) = outerMarks l :=
   outerMarks_of_marks (shift_marks_aux l i n hw hn hg)
+
+/-- … in particular under the hypotheses of `shift_den_eq_partial` (K2 guard, duplicate-free
+denotation) — the conditions under which the Go oracle evaluates the marker clause -/
+theorem shift_marks_nodup_partial (l : Loc) (i n : Int) (hw : wf l = true) (hn : 0 ≤ n)
+    (hk2 : shiftAbs l i n = false) (hnd : (den l).Nodup) :
+    outerMarks (shift l i n) = outerMarks l :=
+  shift_marks_partial l i n hw hn (shiftMarkAbs_of_nodup l i n hw hn hk2 hnd)
 
 /-- **Embed keeps the partial markers on the same outer ends** (`Expand` with `n ≥ 0`; also the
 guest features, which are translated by `Expand(0, i)`) -/
